@@ -140,7 +140,8 @@ func ZZ_C14_idtoken_strategy() {
 	if zz.Thorough() {
 		nk = len(keyAlgs)
 	}
-	key := newServerKey(zz.Choice("key", nk))
+	keyIdx := zz.Choice("key", nk)
+	key := newServerKey(keyIdx)
 	cfg := &fosite.Config{IDTokenIssuer: issuer, IDTokenLifespan: time.Hour}
 	strat := &openid.DefaultStrategy{Signer: &jwt.DefaultSigner{GetPrivateKey: key.getter()}, Config: cfg}
 
@@ -159,42 +160,48 @@ func ZZ_C14_idtoken_strategy() {
 	presetIssuer := ""
 	var presetAud []string
 
-	switch zz.Choice("focus", 7) {
-	case 0: // times, max_age, prompt
-		switch zz.Choice("authtime", 2) {
-		case 1:
-			authTime = tclaim{}
+	focus := func(first int, n int) {
+		switch first + zz.Choice("focus", n) {
+		case 0: // times, max_age, prompt
+			switch zz.Choice("authtime", 2) {
+			case 1:
+				authTime = tclaim{}
+			}
+			if zz.Choice("rat", 2) == 1 {
+				reqAt = tclaim{}
+			}
+			maxAge = []string{"", "0", "600", "abc"}[zz.Choice("maxage", 4)]
+			prompt = []string{"", "none", "login", "consent"}[zz.Choice("prompt", 4)]
+		case 1: // id_token_hint
+			hint = 1 + zz.Choice("hint", 5)
+			hintSub = zz.String("hintsub", 4)
+		case 2: // expiry
+			if zz.Choice("preset", 2) == 1 {
+				preset = tclaim{set: true, off: zz.Int("expoff", -3600, 7200)}
+				zz.Assume(preset.off != 0 && preset.off != -1)
+			}
+			if zz.Choice("lifespan", 2) == 1 {
+				lifespan = 30 * time.Minute
+			}
+		case 3: // nonce
+			nonce = zz.String("nonce", 12)
+		case 4: // refresh: the authentication-time rules do not apply
+			refresh = true
+			prompt = []string{"", "none", "login"}[zz.Choice("prompt", 3)]
+			maxAge = []string{"", "600"}[zz.Choice("maxage", 2)]
+			nonce = zz.String("nonce", 12)
+		case 5: // preset issuer / audience
+			presetIssuer = "https://custom-issuer.example"
+			presetAud = []string{"https://rs.example"}
+			if zz.Choice("audhasclient", 2) == 1 {
+				presetAud = []string{"c1", "https://rs.example"}
+			}
+		case 6: // baseline
 		}
-		if zz.Choice("rat", 2) == 1 {
-			reqAt = tclaim{}
-		}
-		maxAge = []string{"", "0", "600", "abc"}[zz.Choice("maxage", 4)]
-		prompt = []string{"", "none", "login", "consent"}[zz.Choice("prompt", 4)]
-	case 1: // id_token_hint
-		hint = 1 + zz.Choice("hint", 5)
-		hintSub = zz.String("hintsub", 4)
-	case 2: // expiry
-		if zz.Choice("preset", 2) == 1 {
-			preset = tclaim{set: true, off: zz.Int("expoff", -3600, 7200)}
-			zz.Assume(preset.off != 0 && preset.off != -1)
-		}
-		if zz.Choice("lifespan", 2) == 1 {
-			lifespan = 30 * time.Minute
-		}
-	case 3: // nonce
-		nonce = zz.String("nonce", 12)
-	case 4: // refresh: the authentication-time rules do not apply
-		refresh = true
-		prompt = []string{"", "none", "login"}[zz.Choice("prompt", 3)]
-		maxAge = []string{"", "600"}[zz.Choice("maxage", 2)]
-		nonce = zz.String("nonce", 12)
-	case 5: // preset issuer / audience
-		presetIssuer = "https://custom-issuer.example"
-		presetAud = []string{"https://rs.example"}
-		if zz.Choice("audhasclient", 2) == 1 {
-			presetAud = []string{"c1", "https://rs.example"}
-		}
-	case 6: // baseline
+	}
+	focus(0, 7)
+	if zz.Thorough() && keyIdx < 2 {
+		focus(1, 3) // pairs of concerns: any of the above together with id_token_hint / expiry / nonce
 	}
 
 	sess := &openid.DefaultSession{
